@@ -35,6 +35,7 @@ inductive Observed where
   | app (ty : Nat)                     -- TApplicationException of this type
   | failed (e : Err)
   | crashed
+  | timedOut                           -- TTransportException TIMED_OUT: the caller stopped waiting (`callQ`)
   deriving Repr
 
 structure CallObs where
@@ -93,6 +94,32 @@ def call (d : Defs) (n : Nat) (key : String) (oneway : Bool) (args : Val) (h : V
       | .declared i e => ⟨1, some seen, reply (.struct [(i, e)])⟩
       | .appException ty => ⟨1, some seen, .app ty⟩
       | .otherError => ⟨1, some seen, .app internalError⟩
+
+/-! ### The time dimension: how long the request waits at the server, against the caller's FContext timeout
+
+`wait` (ms) is the time between the send and the moment the reply could be back: the transport buffer /
+FNatsServer work queue / the connection's earlier requests on FSimpleServer, plus the handler itself.
+`timeout` (ms) is the `_timeout` header the caller's FContext put on the request.
+
+  server   every request that was RECEIVED is worked on, however long it waited (`fNatsServer.worker` takes
+           every frame off `workC` and calls `processFrame`; `FSimpleServer.accept` and the HTTP handler have no
+           queue of their own): `wait` and `timeout` do not appear on the server side at all;
+  oneway   `FClient.Oneway` returns when the frame is sent — the timeout only bounds the send;
+  two-way  the transport's `Request` selects on the reply and `ctx.Done()`: after `timeout` the caller observes
+           TIMED_OUT and the late reply is dropped by the registry (C01) — the handler has run, or will. -/
+
+/-- The client could build the request frame (otherwise nothing is sent and `call` reports the failure). -/
+def sent (d : Defs) (n : Nat) (key : String) (args : Val) : Bool :=
+  match encV d n (Ty.struct (key ++ "_args")) args with
+  | .ok _ => true
+  | _ => false
+
+/-- One call whose request waits `wait` ms at the server, issued with an FContext timeout of `timeout` ms. -/
+def callQ (d : Defs) (n : Nat) (key : String) (oneway : Bool) (args : Val) (h : Val → HOutcome)
+    (wait timeout : Nat) : CallObs :=
+  let o := call d n key oneway args h
+  if oneway || decide (wait < timeout) || !sent d n key args then o
+  else { o with result := .timedOut }
 
 /-! ### Dispatch through `extends`
 
